@@ -47,7 +47,7 @@ FLOORS = {
 }
 CASE_TIMEOUT = {"quick": 90, "thorough": 180}
 SIZES = {"quick": 450, "thorough": 9000}
-KINDS = ("relabel", "redundant", "repack", "repack", "reload", "self", "unrelated", "finder", "near")
+KINDS = ("relabel", "redundant", "repack", "repack", "reload", "self", "unrelated", "finder", "near", "symatom")
 
 
 def shard_setup(tier):
@@ -112,7 +112,21 @@ def gen_cases(tier, seed):
         if rw.is_empty(c1):
             continue
         p1 = atom_pack(rng)
-        if kind == "finder":
+        if kind == "symatom":
+            # letter-swap-invariant patterns and a non-empty prefix under a pack with the
+            # symmetry: atoms of one side are matched with classes merely equivalent to atoms
+            c1 = {"prefix": "".join(rng.choice("ab") for _ in range(rng.randint(1, 2))),
+                  "patterns": rng.choice(([], ["aa", "bb"], ["ab", "ba"], ["aaa", "bbb"], ["aab", "bba"])),
+                  "alphabet": "ab", "just_prefix": False, "stats": [], "bytes": False,
+                  "proper": rng.random() < 0.5}
+            if rw.is_empty(c1):
+                continue
+            p1.update(sym=True, layout="initial", factory=None, inferral=rng.choice(([], ["minimise"])))
+            tr = str.maketrans("ab", "ba")
+            c2 = dict(c1, prefix=c1["prefix"].translate(tr))
+            p2 = dict(p1)
+            kind = "finder"
+        elif kind == "finder":
             p1["sym"] = True
             c2, p2 = relabel(c1, rng), dict(p1)
         elif kind == "relabel":
